@@ -1,11 +1,12 @@
 """C11 - a rejected hash submit changes nothing and poisons no later call (CBMC on ctx layers + isal_ wrappers)."""
 from common import Evidence, Verdict
-import ctxlayer
+import ctxlayer, basectx
 
 
 def run(tier):
     ev, vd = Evidence("C11", tier), Verdict("C11", tier)
     ctxlayer.run("C11", tier, [1, 3], ev, vd)
+    basectx.run("C11", tier, ev, vd)       # portable base family: rejection branch of _<alg>_ctx_mgr_submit_base
     ev.assume("P0 (scenario submit, reject branch): a rejected submit on an in-flight context changes only its error field - so 'in flight with error in {0,-1,-2,-3}' is a reachable state",
               "P1 (scenario wrapper-submit): real isal_*_ctx_mgr_submit + real context layer; the manager may hand back another context taken from that reachable set",
               "'all other jobs still complete with correct digests' is C01 (the rejected call never reaches the manager: asserted here)")
